@@ -184,6 +184,7 @@ impl Check for C09Shuttle {
             0..=6 => 0,
             7..=13 => 1,
             14 => *g.pick(&[33usize, 65, 70]),
+            15 if g.chance(1, 3) => g.log_uniform(9, 300),
             _ => g.urange(0, 8),
         };
         // fault plans: enumerated by run index so that every position occurs
